@@ -7,10 +7,11 @@
 // dict:  (code klen key.. value)*   0 set [value odd: xbt_dict_set, even: set_ext]  1 get (get_or_null_ext /
 //        get_or_null / get_elm_or_null by value%3)  2 remove_ext  3 length  4 foreach
 //   output per op: set nothing; get "1 v"|"0"; remove "1"|"0" (std::out_of_range); length; foreach n (klen key.. v)*
-// Each case runs in a forked child so that an xbt_assert only ends that case.
+// Each dynar case runs in a forked child so that an xbt_assert only ends that case.
 #include "drv.hpp"
 #include <xbt/dict.h>
 #include <xbt/dynar.h>
+#include <xbt/asserts.h>
 #include <stdexcept>
 #include <sys/wait.h>
 #include <unistd.h>
@@ -180,10 +181,17 @@ int main(int argc, char** argv)
   std::vector<long long> v;
   while (drv::next_case(v)) {
     fflush(stdout);
+    if (mode != "dynar") { // no xbt_assert on the dict paths: run in-process (a crash ends the driver and is reported)
+      run_dict(v);
+      printf("\n");
+      fflush(stdout);
+      continue;
+    }
     pid_t pid = fork();
     if (pid == 0) {
       if (not getenv("DRV_DEBUG"))
         fclose(stderr);
+      xbt_log_no_loc = 1; // no backtrace when an xbt_assert stops the case
       if (mode == "dynar")
         run_dynar(v);
       else
